@@ -685,6 +685,11 @@ func (r *resolver) expandUses(parent HasDataDefinitions, u *Uses) ([]Definition,
 	// copy in any actions or notifications unresolved, they will be resolved
 	// in caller loop
 	for _, a := range g.Actions() {
+		if on, err := checkFeature(a); err != nil {
+			return nil, err
+		} else if !on {
+			continue
+		}
 		hasActions, validActions := parent.(HasActions)
 		if !validActions {
 			return nil, fmt.Errorf("cannot add %s. %s does not allow actions", u.ident, SchemaPath(u))
@@ -698,6 +703,11 @@ func (r *resolver) expandUses(parent HasDataDefinitions, u *Uses) ([]Definition,
 		}
 	}
 	for _, a := range g.Notifications() {
+		if on, err := checkFeature(a); err != nil {
+			return nil, err
+		} else if !on {
+			continue
+		}
 		hasNotifs, validNotifs := parent.(HasNotifications)
 		if !validNotifs {
 			return nil, fmt.Errorf("cannot add %s. %s does not allow notifications", u.ident, SchemaPath(u))
